@@ -173,23 +173,20 @@ def translate_ikesa(ctx):
           'exception raised when nothing matches')
 
     def loop(node, target, payload):
-        """for <target> in [reversed](<payload>.traffic_selectors): <single statement> -> (Gallina iterator, stmt)"""
-        if not (isinstance(node, ast.For) and pyast.dotted_name(node.target) == target and not node.orelse
-                and len(node.body) == 1):
+        """for <target> in [reversed](<payload>.traffic_selectors): <body> -> (Gallina iterator, body)"""
+        if not (isinstance(node, ast.For) and pyast.dotted_name(node.target) == target and not node.orelse):
             src.fail(node, f'loop over {payload} changed')
         it = node.iter
         if isinstance(it, ast.Call) and pyast.dotted_name(it.func) == 'reversed' and len(it.args) == 1 \
                 and pyast.dotted_name(it.args[0]) == payload + '.traffic_selectors':
-            return 'rev l', node.body[0]
+            return 'rev l', node.body
         if pyast.dotted_name(it) == payload + '.traffic_selectors':
-            return 'l', node.body[0]
+            return 'l', node.body
         src.fail(node, f'iteration order over {payload} outside the subset')
     it_tsi, inner = loop(body[0], 'tsi', 'payload_tsi')
-    it_tsr, inner = loop(inner, 'tsr', 'payload_tsr')
-    if not (isinstance(inner, ast.For) and pyast.dotted_name(inner.target) == 'ipsec_conf' and not inner.orelse
-            and pyast.dotted_name(inner.iter) == 'self.configuration.protect' and len(inner.body) == 1
-            and isinstance(inner.body[0], ast.If)):
-        src.fail(inner, 'innermost loop is no longer `for ipsec_conf in self.configuration.protect: if ...`')
+    if len(inner) != 1:
+        src.fail(body[0], 'the TSi loop must contain exactly the TSr loop')
+    it_tsr, passes_ast = loop(inner[0], 'tsr', 'payload_tsr')
     names = {'tsi': ('tsi', 'ts'), 'tsr': ('tsr', 'ts'),
              'ipsec_conf.my_ts': ('conf_my_ts', 'ts'), 'ipsec_conf.peer_ts': ('conf_peer_ts', 'ts')}
 
@@ -214,8 +211,18 @@ def translate_ikesa(ctx):
             rest = chain(node.orelse[0])
         else:
             src.fail(node, 'else branch outside the subset')
-        return f'if {cond} then {then}\n  else {rest}'
-    conf_step = chain(inner.body[0])
+        return f'if {cond} then {then}\n     else {rest}'
+    # the body of the TSr loop: one or more passes `for ipsec_conf in self.configuration.protect: if ...: return ...`
+    passes = []
+    if not passes_ast:
+        src.fail(inner[0], 'empty TSr loop')
+    for ps in passes_ast:
+        if not (isinstance(ps, ast.For) and pyast.dotted_name(ps.target) == 'ipsec_conf' and not ps.orelse
+                and pyast.dotted_name(ps.iter) == 'self.configuration.protect' and len(ps.body) == 1
+                and isinstance(ps.body[0], ast.If)):
+            src.fail(ps, 'a pass over the policy is no longer `for ipsec_conf in self.configuration.protect: if ...`')
+        passes.append(chain(ps.body[0]))
+    conf_passes = ';\n   '.join(f'(fun tsi tsr conf_my_ts conf_peer_ts =>\n     {p})' for p in passes)
 
     # ---- responder: _process_create_child_sa_negotiation_req ---------------------------------
     fn = src.func('IkeSa._process_create_child_sa_negotiation_req')
@@ -432,10 +439,10 @@ Fixpoint ts_list_eq (a b : list ts) : bool :=
   | _, _ => false
   end.
 
-(* IkeSa._get_ipsec_configuration: body of the innermost loop for one (tsi, tsr, ipsec_conf);
-   Some (x, y) stands for `return ipsec_conf, x, y` *)
-Definition conf_step (tsi tsr conf_my_ts conf_peer_ts : ts) : option (ts * ts) :=
-  {conf_step}.
+(* IkeSa._get_ipsec_configuration: for one (tsi, tsr) the policy entries are scanned in this sequence of passes,
+   each `for ipsec_conf in self.configuration.protect: if ...: return ipsec_conf, x, y`  (Some (x, y)) *)
+Definition conf_passes : list (ts -> ts -> ts -> ts -> option (ts * ts)) :=
+  [{conf_passes}].
 
 (* IkeSa._get_ipsec_configuration: iteration order of the two outer loops *)
 Definition iter_tsi (l : list ts) : list ts := {it_tsi}.
@@ -531,7 +538,7 @@ def rnd_range_ts(ctx, ty=None):
 def gen_pairs(ctx):
     uni = universe(ctx)
     pairs = []
-    n = 6000 if ctx.quick() else 120000
+    n = 4000 if ctx.quick() else 120000
     allpairs = len(uni) * len(uni)
     if allpairs <= n:
         pairs = list(itertools.product(uni, uni))
@@ -843,70 +850,61 @@ def gen_initiator(ctx, rel):
 # =============================================================================================
 # tie 2: correspondence model <-> implementation
 
-def _mismatches(ctx, fn, cases, sig, name, shard):
-    bad = core.run_cases(ctx, CLUSTER, 'From Ts Require Import TsRun.', fn, cases, shard=shard, name=name)
-    return [Failure('correspondence', sig, f'model {model_out} vs implementation {cases[gi][1]} on {cases[gi][0]}',
-                    {'kind': name, 'input': cases[gi][0], 'impl': cases[gi][1], 'model': model_out})
-            for gi, model_out in bad[:6]]
-
-
 def correspond(ctx):
-    fails = []
+    """All parts go through one dispatcher (TsRun.run_any) so that the shards run in parallel."""
+    cases = []      # ([tag, input], expected)
     # 1 selector pairs: is_subset, __eq__, get_port
-    cases = []
     for a, b in gen_pairs(ctx):
         out = impl_pair(a, b)
-        cases.append(([list(a), list(b)], out))
-        ctx.case([a, b], nontrivial=(a != b), sample=(len(ctx.samples) < 2))
+        cases.append((['pair', [list(a), list(b)]], out))
+        ctx.case([a, b], nontrivial=(a != b), sample=(len(ctx.samples) < 1))
         ctx.count('pair:subset=%s' % out[0])
-    fails += _mismatches(ctx, 'run_pair', cases, 'ts:pair', 'pair', 2500)
     # 2 get_network / get_port of selectors (universe + random ranges, also reversed ranges)
-    cases = []
-    sel = list(universe(ctx)) + [rnd_range_ts(ctx) for _ in range(600 if ctx.quick() else 20000)]
+    sel = list(universe(ctx)) + [rnd_range_ts(ctx) for _ in range(500 if ctx.quick() else 20000)]
     sel += [(t[0], t[1], t[2], t[3], t[5], t[4]) for t in sel[-100:]]
     for t in sel:
         out = impl_net(t)
-        cases.append((list(t), out))
+        cases.append((['net', list(t)], out))
         ctx.case(['net', t], nontrivial=(t[4] != t[5]))
         ctx.count('net:prefix/8=%d' % (out[0][1] // 8))
-    fails += _mismatches(ctx, 'run_net', cases, 'ts:get_network', 'net', 1500)
     # 3 from_network for every prefix length, then get_network/get_port of the result
-    cases = []
     for c in gen_networks(ctx):
-        cases.append((list(c), impl_from_network(c)))
-        ctx.case(['from_network', c], nontrivial=True, sample=(len(ctx.samples) < 3))
+        cases.append((['fromnet', list(c)], impl_from_network(c)))
+        ctx.case(['from_network', c], nontrivial=True, sample=(len(ctx.samples) < 2))
         ctx.count('from_network:v%d' % c[0])
-    fails += _mismatches(ctx, 'run_from_network', cases, 'ts:from_network', 'fromnet', 1000)
     # 4 policy lookup through the real IkeSa._get_ipsec_configuration
     rel = related(ctx)
-    cases = []
-    for _ in range(1500 if ctx.quick() else 30000):
+    for _ in range(1200 if ctx.quick() else 30000):
         protect, tsis, tsrs = gen_lookup(ctx, rel)
         out = impl_lookup(protect, tsis, tsrs)
-        cases.append(([protect, tsis, tsrs], out))
+        cases.append((['lookup', [protect, tsis, tsrs]], out))
         ctx.case(['lookup', protect, tsis, tsrs], nontrivial=(len(tsis) * len(tsrs) > 0),
-                 sample=(len(ctx.samples) < 4))
+                 sample=(len(ctx.samples) < 3))
         ctx.count('lookup:%s' % ('found' if isinstance(out, list) else out))
-    fails += _mismatches(ctx, 'run_conf', cases, 'ts:policy-lookup', 'lookup', 700)
     # 5 responder: the real request processing with the kernel calls recorded
-    cases = []
     for _ in range(500 if ctx.quick() else 6000):
         c = gen_responder(ctx, rel)
         out = impl_responder(*c)
-        cases.append(([c[0], c[1], c[2], c[3], c[4]], out))
-        ctx.case(['responder', c], nontrivial=True, sample=(len(ctx.samples) < 5))
+        cases.append((['responder', [c[0], c[1], c[2], c[3], c[4]]], out))
+        ctx.case(['responder', c], nontrivial=True, sample=(len(ctx.samples) < 4))
         ctx.count('responder:%s%s' % ('rekey:' if c[1] is not None else '', 'installed' if isinstance(out, list) else out))
-    fails += _mismatches(ctx, 'run_responder', cases, 'ts:responder', 'responder', 500)
     # 6 initiator: the real response processing
-    cases = []
     for _ in range(400 if ctx.quick() else 5000):
         c = gen_initiator(ctx, rel)
         out = impl_initiator(*c)
-        cases.append((list(c), out))
-        ctx.case(['initiator', c], nontrivial=True, sample=(len(ctx.samples) < 6))
+        cases.append((['initiator', list(c)], out))
+        ctx.case(['initiator', c], nontrivial=True, sample=(len(ctx.samples) < 5))
         ctx.count('initiator:%s' % ('installed' if isinstance(out, list) else out))
-    fails += _mismatches(ctx, 'run_initiator', cases, 'ts:initiator', 'initiator', 500)
-    return fails
+    order = list(range(len(cases)))
+    ctx.rng.shuffle(order)          # balance the shards
+    cases = [cases[i] for i in order]
+    shard = max(400, -(-len(cases) // core.NPROC))
+    bad = core.run_cases(ctx, CLUSTER, 'From Ts Require Import TsRun.', 'run_any', cases, shard=min(shard, 1500))
+    return [Failure('correspondence', 'ts:' + cases[gi][0][0],
+                    f'model {model_out} vs implementation {cases[gi][1]} on {cases[gi][0]}',
+                    {'kind': 'correspondence:' + cases[gi][0][0], 'input': cases[gi][0][1], 'impl': cases[gi][1],
+                     'model': model_out})
+            for gi, model_out in bad[:8]]
 
 
 # =============================================================================================
